@@ -253,6 +253,8 @@ def split_mask(arr: npt.NDArray[Any], mask: npt.NDArray[np.generic]) -> list[npt
     :return: List of arrays associated to True (1) values of mask.
     """
     arr, mask = np.array(arr), np.array(mask)
+    if mask.size == 0:
+        return []
     indices = np.nonzero(mask[1:] != mask[:-1])[0] + 1
     sp = np.split(arr, indices)
     sp = sp[0::2] if mask[0] else sp[1::2]
